@@ -433,7 +433,7 @@ func checkC05(c C05Case) (vs []*Violation) {
 		a := strconv.Itoa(off.Status) + " " + strings.Join(off.Header["Content-Type"], "|")
 		b := strconv.Itoa(on.Status) + " " + strings.Join(on.Header["Content-Type"], "|")
 		labels = append(labels, "trace_relation_with_malformed_q")
-		if a != b || off.Panic != on.Panic {
+		if a != b || off.Panic != on.Panic || on.Panic != "" {
 			sig := ""
 			if c.TraceOffNil && strings.Contains(off.Panic, "nil pointer") {
 				sig = "D17"
@@ -459,6 +459,11 @@ func checkC05(c C05Case) (vs []*Violation) {
 		labels = append(labels, "every_range_with_malformed_q")
 		if len(all) > 1 {
 			vs = append(vs, viol("", "Produces=%v Accept=%q: the same request got different answers: %v", c.Produces, h, all))
+		}
+		for k := range all {
+			if !strings.HasSuffix(k, "panic=") && len(vs) == 0 {
+				vs = append(vs, viol("", "Produces=%v Accept=%q: writing the entity panicked: %s", c.Produces, h, k))
+			}
 		}
 	}
 	if len(seen) > 1 && len(vs) == 0 {
